@@ -463,7 +463,7 @@ func (n *c13Notifier) RegisterSpendNtfn(op *wire.OutPoint, _ []byte,
 	return &chainntnfs.SpendEvent{Spend: ch, Cancel: func() {}}, nil
 }
 
-func (n *c13Notifier) RegisterBlockEpochNtfn(*chainntnfs.BlockEpoch) (
+func (n *c13Notifier) RegisterBlockEpochNtfn(best *chainntnfs.BlockEpoch) (
 	*chainntnfs.BlockEpochEvent, error) {
 
 	e := n.env
@@ -474,7 +474,16 @@ func (n *c13Notifier) RegisterBlockEpochNtfn(*chainntnfs.BlockEpoch) (
 	if !(e.alive && e.epoch == n.ep) {
 		return nil, c13ErrCrashed
 	}
-	ch <- &chainntnfs.BlockEpoch{Height: e.height}
+	if best == nil {
+		// no best block given: the current tip is dispatched at once
+		ch <- &chainntnfs.BlockEpoch{Height: e.height}
+	} else {
+		// the client names its best block: only the backlog of blocks it
+		// missed is sent (nothing when it is up to date)
+		for x := best.Height + 1; x <= e.height && x-best.Height < 250; x++ {
+			ch <- &chainntnfs.BlockEpoch{Height: x}
+		}
+	}
 	e.epochSubs = append(e.epochSubs, ch)
 	return &chainntnfs.BlockEpochEvent{Epochs: ch, Cancel: func() {}}, nil
 }
@@ -806,6 +815,59 @@ func (b *c13Builder) outgoing(idx uint64, expiry uint32, fate string) {
 	_ = fate
 	b.spec = append(b.spec, fmt.Sprintf("SPEC c label=%s kind=%s two=%d idx=%d expiry=%d",
 		l, kind, b2i(b.local), idx, expiry))
+}
+
+// outgoingLegacy adds an outgoing HTLC on OUR commitment of a pre-anchor
+// channel: the timeout resolver hands the htlc (with its pre-signed timeout tx)
+// to the utxo nursery (IncubateOutputs: crib), which publishes the timeout tx at
+// the expiry, moves the output to kindergarten once the timeout tx confirms and
+// sweeps the CSV-delayed second-level output; the resolver only watches.
+func (b *c13Builder) outgoingLegacy(idx uint64, expiry uint32) {
+	pre, hash := c13Preimage(byte(idx))
+	op := wire.OutPoint{Hash: b.commitHash, Index: uint32(idx)}
+	l := fmt.Sprintf("h%d", idx)
+	b.labels[op] = l
+	b.confHtlcs = append(b.confHtlcs, channeldb.HTLC{
+		Incoming: false, Amt: 10_000_000, HtlcIndex: idx,
+		OutputIndex: int32(idx), RefundTimeout: expiry, RHash: hash,
+	})
+	timeoutTx := &wire.MsgTx{
+		Version: 2,
+		TxIn:    []*wire.TxIn{{PreviousOutPoint: op}},
+		TxOut:   []*wire.TxOut{{Value: 9000, PkScript: []byte{0xfe, byte(idx)}}},
+	}
+	wit, err := input.SenderHtlcSpendTimeout(
+		&mock.DummySignature{}, txscript.SigHashAll,
+		&mock.DummySigner{}, &testSignDesc, timeoutTx,
+	)
+	if err != nil {
+		panic(err)
+	}
+	timeoutTx.TxIn[0].Witness = wit
+	claim := wire.OutPoint{Hash: timeoutTx.TxHash(), Index: 0}
+	b.labels[claim] = l + "/2"
+	b.txs[l] = &c13PendingConf{tx: timeoutTx, op: op}
+	b.witness[l] = wit
+	b.outRes = append(b.outRes, lnwallet.OutgoingHtlcResolution{
+		Expiry:          expiry,
+		SignedTimeoutTx: timeoutTx,
+		SweepSignDesc:   testSignDesc,
+		CsvDelay:        4,
+		ClaimOutpoint:   claim,
+	})
+	// remote success spend on our commitment: <sig> <preimage> <script>
+	b.remoteTx[l] = &wire.MsgTx{
+		Version: 2,
+		TxIn: []*wire.TxIn{{PreviousOutPoint: op,
+			Witness: [][]byte{{0x30}, pre[:], {0x51}}}},
+		TxOut: []*wire.TxOut{{Value: 1, PkScript: []byte{0xbb}}},
+	}
+	kind := "oc"
+	if b.height+5 >= expiry { // OutgoingBroadcastDelta = 5
+		kind = "to"
+	}
+	b.spec = append(b.spec, fmt.Sprintf("SPEC c label=%s kind=%s two=1 legacy=1 idx=%d expiry=%d",
+		l, kind, idx, expiry))
 }
 
 // incoming adds an incoming HTLC with an output on the confirmed (remote)
@@ -1610,7 +1672,8 @@ func c13StepClose() c13Step {
 func c13Unilateral(name string, kind string, near, hold bool, rng *rand.Rand) *c13Scenario {
 	legacy := kind == "legacy"
 	anchorIn := kind == "anchorin"
-	if legacy || anchorIn {
+	legacyOut := kind == "legacyout"
+	if legacy || anchorIn || legacyOut {
 		kind = "local"
 	}
 	local := kind == "local"
@@ -1618,9 +1681,16 @@ func c13Unilateral(name string, kind string, near, hold bool, rng *rand.Rand) *c
 	b := c13NewBuilder(local, byte(len(name)), closeHeight)
 	// h10: far expiry -> contest resolver, later timed out by us (two stage
 	// on our commitment, direct on theirs).
-	b.outgoing(10, 140, "timeout")
-	// h11: far expiry -> contest resolver, the remote claims with preimage.
-	b.outgoing(11, 150, "claim")
+	// (legacyOut: pre-anchor channel, both htlcs are handed to the utxo
+	// nursery's crib by the timeout resolver)
+	if legacyOut {
+		b.outgoingLegacy(10, 140)
+		b.outgoingLegacy(11, 150)
+	} else {
+		b.outgoing(10, 140, "timeout")
+		// h11: far expiry -> contest resolver, the remote claims with preimage.
+		b.outgoing(11, 150, "claim")
+	}
 	// h12: close to expiry at close height -> timeout resolver at once (and
 	// the arbitrator goes to chain by itself: chain trigger).
 	if near {
@@ -1815,9 +1885,20 @@ func c13Unilateral(name string, kind string, near, hold bool, rng *rand.Rand) *c
 	for _, g := range groups {
 		steps = append(steps, g...)
 	}
-	steps = append(steps, c13StepHeight(141), c13StepConfirmable("h10"))
-	if local {
-		steps = append(steps, c13StepHeight(150), c13StepConfirmable("h10/2"))
+	if legacyOut {
+		// 139: the contest resolver swaps to the timeout resolver, which hands
+		// h10 to the REAL nursery (crib, class = expiry 140); 140: the nursery
+		// publishes the timeout tx; it confirms; CSV (4) matures; the nursery
+		// sweeps the kindergarten output
+		scn.realNursery = true
+		scn.txs = b.txs
+		steps = append(steps, c13StepHeight(139), c13StepBlocks(1), c13StepConfirmTx("h10"),
+			c13StepBlocks(4), c13StepBlocks(1), c13StepConfirmable("h10/2"), c13StepBlocks(1))
+	} else {
+		steps = append(steps, c13StepHeight(141), c13StepConfirmable("h10"))
+		if local {
+			steps = append(steps, c13StepHeight(150), c13StepConfirmable("h10/2"))
+		}
 	}
 	if hold {
 		steps = append(steps, c13StepRelease())
@@ -1915,6 +1996,7 @@ func c13Scenarios(seed int64) []*c13Scenario {
 		localB,
 		c13Unilateral("localL", "legacy", false, false, rng),
 		c13Unilateral("localS", "anchorin", false, false, rng),
+		c13Unilateral("localO", "legacyout", false, false, rng),
 		c13Unilateral("local", "local", true, false, rng),
 		c13Unilateral("localU", "local", false, false, rng),
 		c13Unilateral("remote", "remote", false, false, rng),
@@ -1992,6 +2074,8 @@ func TestVerifC13(t *testing.T) {
 	seed, _ := strconv.ParseInt(os.Getenv("VERIF_SEED"), 10, 64)
 	thorough := os.Getenv("VERIF_TIER") == "thorough"
 	scns := c13Scenarios(seed)
+	// development aid (never set by the runner): restrict to one scenario
+	only := os.Getenv("VERIF_C13_ONLY")
 
 	// child mode: run the listed cases, append traces to VERIF_OUT.
 	if spec := os.Getenv("VERIF_C13_CASES"); spec != "" {
@@ -2016,10 +2100,20 @@ func TestVerifC13(t *testing.T) {
 	for i := range scns {
 		base = append(base, c13Case{scn: i})
 	}
+	if only != "" {
+		base = nil
+		for i := range scns {
+			if scns[i].name == only {
+				base = append(base, c13Case{scn: i})
+			}
+		}
+	}
 	res := c13RunChildren(t, out, seed, base)
 	ns := make([]int, len(scns))
+	baseTrace := make([]string, len(scns))
 	for i, r := range res {
-		ns[i] = r.writes
+		ns[base[i].scn] = r.writes
+		baseTrace[base[i].scn] = r.trace
 	}
 	// phase 2: every single stop point; pairs (all in thorough, a seeded
 	// sample in quick).
@@ -2084,7 +2178,7 @@ func TestVerifC13(t *testing.T) {
 			continue
 		}
 		k := 0
-		for _, l := range strings.Split(res[i].trace, "\n") {
+		for _, l := range strings.Split(baseTrace[i], "\n") {
 			ws := strings.Fields(l)
 			if len(ws) > 3 && ws[0] == "W" && ws[3] == "st=3" {
 				k, _ = strconv.Atoi(ws[1])
